@@ -116,11 +116,24 @@ pub fn trig_code(trig: &str) -> u64 {
     kind * 1000 + key
 }
 
-#[derive(Clone)]
 pub struct ScriptProc {
     pub script: Rc<RefCell<Script>>,
     pub st: u64,
     pub hist: Vec<u64>,
+    /// number of `Context` calls this instance's handlers have issued (the process's own account of what it did; compared
+    /// with its event log, which is code under test).  A clone (the model checker's copy) counts on its own.
+    pub issued: Rc<std::cell::Cell<u64>>,
+}
+
+impl Clone for ScriptProc {
+    fn clone(&self) -> Self {
+        Self {
+            script: self.script.clone(),
+            st: self.st,
+            hist: self.hist.clone(),
+            issued: Rc::new(std::cell::Cell::new(self.issued.get())),
+        }
+    }
 }
 
 impl ScriptProc {
@@ -129,6 +142,7 @@ impl ScriptProc {
             script,
             st: 0,
             hist: vec![],
+            issued: Rc::new(std::cell::Cell::new(0)),
         }
     }
 
@@ -163,6 +177,9 @@ impl ScriptProc {
                 acts = rule.acts.clone();
             }
             for act in &acts {
+                if !matches!(act, Act::Fail) {
+                    self.issued.set(self.issued.get() + 1);
+                }
                 let dat = |d: &Data| match d {
                     Data::Lit(s) => s.clone(),
                     Data::Echo => data.to_string(),
